@@ -80,7 +80,34 @@ class Trace:
         self.posteriors = None
 
 
-def record_run(cfg, c, seed, n=16, n_total=48, posterior=False, max_iter=60):
+class _Cap(RuntimeError):
+    pass
+
+
+def observe(s):
+    """the statement's observables of a finished (or aborted) run, read through the PUBLIC state API only: per committed iteration
+    beta, ESS, logz, particles (u, blobs), logl and the recorded counters"""
+    st = s.state
+    its = []
+    for k in range(st.get_history_length()):
+        def g(key, default=None):
+            try:
+                return st.get_history(key, k)
+            except Exception:  # noqa — a key that was never committed (blobs when there are none)
+                return default
+        bl = g("blobs")
+        its.append({"beta": float(g("beta")), "ess": float(g("ess", np.nan)), "logz": float(g("logz")), "steps": int(g("steps", 0)),
+                    "acceptance": float(g("acceptance", np.nan)), "efficiency": float(g("efficiency", np.nan)),
+                    "calls": int(g("calls", 0)), "iter": int(g("iter", 0)), "u": np.array(g("u"), dtype=float).copy(),
+                    "logl": np.array(g("logl"), dtype=float).copy(), "blobs": None if bl is None else np.array(bl).copy()})
+    return its
+
+
+def record_run(cfg, c, seed, n=16, n_total=48, posterior=False, max_iter=60, instrument=True):
+    """one real run.  The OBSERVABLES (`t.iters`, `t.final`, `t.posteriors`, `t.error`) come from the public API after the run;
+    everything else is recorded by wrappers that pass their arguments through unchanged (`*args, **kwargs`) and never let a
+    recording problem reach the sampler: the first such problem is kept in `t.instr_error` (the suites that need the internal
+    record then abort, the property oracle does not)."""
     from tempest import Sampler
     import tempest.mcmc as mcmc
     import tempest.steps.resample as rsm
@@ -88,6 +115,8 @@ def record_run(cfg, c, seed, n=16, n_total=48, posterior=False, max_iter=60):
     import tempest.steps.reweight as rwt
     import tempest.modes as modes
     t = Trace()
+    t.instr_error = None
+    t.assign, t.margins = [], []
     like = make_like(cfg, c)
     np.random.seed(seed)
     with _quiet(), warnings.catch_warnings():
@@ -95,190 +124,300 @@ def record_run(cfg, c, seed, n=16, n_total=48, posterior=False, max_iter=60):
         s = Sampler(lambda u: 8.0 * u - 4.0, like, 2, n_particles=n, clustering=cfg["clustering"], sample=cfg["kernel"],
                     resample=cfg["resample"], volume_variation=cfg["vv"], n_steps=1, n_max_steps=2,
                     blobs_dtype=float if cfg.get("blobs") else None)
-    core = s._core
-    st = s.state
-    t.s, t.cfg, t.c, t.n, t.seed = s, cfg, c, n, seed
-    cur = {"beta": None, "train": None, "pending": None, "iter_metric": [], "masks": [], "alphas": [], "inb": None}
-    real_rand, real_random, real_choice = np.random.rand, np.random.random, np.random.choice
-    real_sr, real_cb, real_vv, real_tw = rsm.systematic_resample, mcmc.check_bounds, rwt.volume_variation, trn.trim_weights
+    t.s, t.cfg, t.c, t.n, t.seed, t.n_total = s, cfg, c, n, seed, n_total
+    cur = {"beta": None, "train": None, "pending": None, "iter_metric": [], "alphas": [], "inb": None, "n_it": 0}
+
+    def note(e, where):
+        if t.instr_error is None:
+            t.instr_error = f"{where}: {type(e).__name__}: {e}"
+
+    patches = []
+
+    def hook(obj, name, make):
+        """patch obj.name with make(original) if it exists"""
+        try:
+            orig = getattr(obj, name)
+            patches.append(common.patched(obj, name, make(orig)))
+        except Exception as e:  # noqa
+            note(e, f"patching {getattr(obj, '__name__', type(obj).__name__)}.{name}")
 
     def new_tags(k):
         a = len(t.like)
         return list(range(a, a + k))
 
-    orig_ll = core.mutator.log_likelihood
-
-    def ll(x):
-        out = orig_ll(x)
-        logl = np.array(out[0], dtype=float)
-        tags = new_tags(len(logl))
-        t.like.extend(float(v) for v in logl)
-        cur["pending"] = tags
-        if cur.get("draw_u") is not None:          # warm-up draw: rows of u in the same order
-            for k, u in zip(tags, cur["draw_u"]):
-                t.tag_u[k] = np.array(u, dtype=float).tobytes()
-            t.draws.append(tags)
-            cur["draw_u"] = None
-        return out
-
-    def rand(*shape):
-        out = real_rand(*shape)
-        fr = sys._getframe(1)
-        if fr.f_code.co_name == "run" and fr.f_code.co_filename.endswith("mutate.py"):
-            cur["draw_u"] = out.copy()
-        elif fr.f_code.co_name == "run" and fr.f_code.co_filename.endswith("mcmc.py"):
-            t.unifs.append([float(v) for v in out])
-        return out
-
-    def random(*a):
-        out = real_random(*a)
-        if sys._getframe(1).f_code.co_name == "systematic_resample" and cur.get("in_resampler"):
-            t.resu.append([float(out)])
-        return out
-
-    def choice(a, size=None, replace=True, p=None):
-        fr = sys._getframe(1)
-        fn = fr.f_code.co_filename
-        if p is None and fn.endswith("mutate.py"):
-            a = np.asarray(a)
-            pick = np.random.randint(0, len(a), size=size)     # legacy algorithm of choice(a, size) without p
-            out = a[pick]
-            t.choices.append([int(v) for v in out])
+    def mk_ll(orig):
+        def ll(*a, **k):
+            out = orig(*a, **k)
+            try:
+                logl = np.array(out[0], dtype=float)
+                tags = new_tags(len(logl))
+                t.like.extend(float(v) for v in logl)
+                cur["pending"] = tags
+                if cur.get("draw_u") is not None:          # warm-up draw: rows of u in the same order
+                    for kk, u in zip(tags, cur["draw_u"]):
+                        t.tag_u[kk] = np.array(u, dtype=float).tobytes()
+                    t.draws.append(tags)
+                    cur["draw_u"] = None
+            except Exception as e:  # noqa
+                note(e, "log_likelihood")
             return out
-        if p is not None and fn.endswith("resample.py"):
-            a = np.asarray(a)
-            us = np.random.random_sample(size)                 # legacy algorithm of choice(a, size, p=p), written out
-            cdf = np.cumsum(p)
-            cdf /= cdf[-1]
-            idx = cdf.searchsorted(us, side="right")
-            t.resu.append([float(v) for v in us])
-            cur["idx"] = [int(v) for v in idx]
-            return a[idx]
-        return real_choice(a, size=size, replace=replace, p=p)
+        return ll
 
-    def spy_sr(size, weights=None, random_state=None):
-        r = real_sr(size, weights=weights)
-        if cur.get("in_resampler"):
-            cur["idx"] = [int(v) for v in r]
-        return r
+    def mk_rand(orig):
+        def rand(*shape, **k):
+            out = orig(*shape, **k)
+            try:
+                fr = sys._getframe(1)
+                if fr.f_code.co_filename.endswith("mutate.py"):
+                    cur["draw_u"] = np.array(out).copy()
+                elif fr.f_code.co_filename.endswith("mcmc.py"):
+                    t.unifs.append([float(v) for v in np.ravel(out)])
+            except Exception as e:  # noqa
+                note(e, "np.random.rand")
+            return out
+        return rand
 
-    def spy_cb(u, periodic=None, reflective=None):
-        out = real_cb(u, periodic, reflective)
-        if getattr(u, "ndim", 1) == 2 and sys._getframe(1).f_code.co_name == "run":
-            cur["inb"] = np.atleast_1d(out).copy()
-        return out
+    def mk_random(orig):
+        def random(*a, **k):
+            out = orig(*a, **k)
+            try:
+                if sys._getframe(1).f_code.co_name == "systematic_resample" and cur.get("in_resampler"):
+                    t.resu.append([float(out)])
+            except Exception as e:  # noqa
+                note(e, "np.random.random")
+            return out
+        return random
 
-    def wrap_factor(orig):
-        def f(self_, u_prime, logl_prime):
-            out = orig(self_, u_prime, logl_prime)
-            tags = cur["pending"]
-            inb = cur["inb"] if cur["inb"] is not None else np.ones(len(tags), dtype=bool)
-            cur["inb"] = None
-            for k, u in zip(tags, u_prime):
-                t.tag_u[k] = np.array(u, dtype=float).tobytes()
-            t.props.append([(k, float(fv), bool(b)) for k, fv, b in zip(tags, np.array(out, dtype=float), inb)])
-            cur["prop_u"] = _h(u_prime)
+    def mk_choice(orig):
+        def choice(a, size=None, replace=True, p=None, **k):
+            try:
+                fn = sys._getframe(1).f_code.co_filename
+                if not k and replace and p is None and fn.endswith("mutate.py") and size is not None:
+                    arr = np.asarray(a)
+                    pick = np.random.randint(0, len(arr), size=size)     # legacy algorithm of choice(a, size) without p
+                    out = arr[pick]
+                    t.choices.append([int(v) for v in np.ravel(out)])
+                    return out
+                if not k and replace and p is not None and fn.endswith("resample.py") and size is not None:
+                    arr = np.asarray(a)
+                    us = np.random.random_sample(size)                   # legacy algorithm of choice(a, size, p=p), written out
+                    cdf = np.cumsum(p)
+                    cdf /= cdf[-1]
+                    idx = cdf.searchsorted(us, side="right")
+                    t.resu.append([float(v) for v in us])
+                    cur["idx"] = [int(v) for v in idx]
+                    return arr[idx]
+            except Exception as e:  # noqa — fall back to numpy's own routine
+                note(e, "np.random.choice")
+            return orig(a, size=size, replace=replace, p=p, **k)
+        return choice
+
+    def mk_sr(orig):
+        def spy_sr(*a, **k):
+            r = orig(*a, **k)
+            try:
+                if cur.get("in_resampler"):
+                    cur["idx"] = [int(v) for v in r]
+            except Exception as e:  # noqa
+                note(e, "systematic_resample")
+            return r
+        return spy_sr
+
+    def mk_cb(orig):
+        def spy_cb(*a, **k):
+            out = orig(*a, **k)
+            try:
+                if a and getattr(a[0], "ndim", 1) == 2 and sys._getframe(1).f_code.co_filename.endswith("mcmc.py"):
+                    cur["inb"] = np.atleast_1d(out).copy()
+            except Exception as e:  # noqa
+                note(e, "check_bounds")
+            return out
+        return spy_cb
+
+    def mk_factor(orig):
+        def f(self_, *a, **k):
+            out = orig(self_, *a, **k)
+            try:
+                u_prime = a[0] if a else k.get("u_prime")
+                tags = cur["pending"]
+                inb = cur["inb"] if cur["inb"] is not None else np.ones(len(tags), dtype=bool)
+                cur["inb"] = None
+                for kk, u in zip(tags, u_prime):
+                    t.tag_u[kk] = np.array(u, dtype=float).tobytes()
+                t.props.append([(kk, float(fv), bool(b)) for kk, fv, b in zip(tags, np.array(out, dtype=float), inb)])
+            except Exception as e:  # noqa
+                note(e, "_compute_acceptance_factor")
             return out
         return f
 
-    def wrap_pb(orig):
-        def f(self_, alpha):
-            cur["alphas"].append(np.array(alpha, dtype=float))
-            return orig(self_, alpha)
+    def mk_pb(orig):
+        def f(self_, *a, **k):
+            try:
+                alpha = a[0] if a else k.get("alpha")
+                cur["alphas"].append(np.array(alpha, dtype=float))
+            except Exception as e:  # noqa
+                note(e, "_update_progress_bar")
+            return orig(self_, *a, **k)
         return f
 
-    def spy_vv(x, w=None):
-        v = real_vv(x, w)
-        t.vvtab.append((len(x), float(cur["beta"]), float(v)))
-        t.vv_in.append((np.array(x, dtype=float).copy(), np.array(w, dtype=float).copy()))
-        return v
+    def mk_vv(orig):
+        def spy_vv(*a, **k):
+            v = orig(*a, **k)
+            try:
+                x = a[0] if a else k.get("x")
+                w = a[1] if len(a) > 1 else k.get("w")
+                t.vvtab.append((len(x), float(cur["beta"]), float(v)))
+                t.vv_in.append((np.array(x, dtype=float).copy(), None if w is None else np.array(w, dtype=float).copy()))
+            except Exception as e:  # noqa
+                note(e, "volume_variation")
+            return v
+        return spy_vv
 
-    def spy_tw(samples, weights, ess=0.99, bins=1000):
-        w_in = np.array(weights, dtype=float).copy()
-        idx, wt = real_tw(samples, weights, ess=ess, bins=bins)
-        t.trim.append((w_in, np.array(idx).copy(), np.array(wt, dtype=float).copy()))
-        return idx, wt
+    def mk_tw(orig):
+        def spy_tw(*a, **k):
+            w_in = None
+            try:
+                w = a[1] if len(a) > 1 else k.get("weights")
+                w_in = np.array(w, dtype=float).copy()
+            except Exception as e:  # noqa
+                note(e, "trim_weights (arguments)")
+            r = orig(*a, **k)
+            try:
+                if sys._getframe(1).f_code.co_filename.endswith("train.py"):
+                    t.trim.append((w_in, np.array(r[0]).copy(), np.array(r[1], dtype=float).copy()))
+            except Exception as e:  # noqa
+                note(e, "trim_weights")
+            return r
+        return spy_tw
 
-    orig_m = core.reweighter._compute_metric_and_weights
+    def mk_m(orig):
+        def spy_m(*a, **k):
+            try:
+                cur["beta"] = float(a[0] if a else k.get("beta"))
+            except Exception as e:  # noqa
+                note(e, "_compute_metric_and_weights (arguments)")
+            out = orig(*a, **k)
+            try:
+                cur["iter_metric"].append((cur["beta"], float(out[1]), float(out[2])))
+            except Exception as e:  # noqa
+                note(e, "_compute_metric_and_weights")
+            return out
+        return spy_m
 
-    def spy_m(beta):
-        cur["beta"] = float(beta)
-        out = orig_m(beta)
-        cur["iter_metric"].append((float(beta), float(out[1]), float(out[2])))
-        return out
+    def mk_tr(orig):
+        def spy_tr(*a, **k):
+            try:
+                w = a[0] if a else k.get("weights")
+                t.train_w.append(np.array(w, dtype=float).copy())
+                t.logz_rw.append(float(s.state.get_current("logz")))
+            except Exception as e:  # noqa
+                note(e, "Trainer.run (arguments)")
+            ms = orig(*a, **k)
+            try:
+                if float(s.state.get_current("beta")) != 0.0:
+                    cur["train"] = {"K": int(ms.K)}
+            except Exception as e:  # noqa
+                note(e, "Trainer.run")
+            return ms
+        return spy_tr
 
-    orig_tr = core.trainer.run
+    def mk_rs(orig):
+        def spy_rs(*a, **k):
+            try:
+                w = a[0] if a else k.get("weights")
+                t.res_w.append(np.array(w, dtype=float).copy())
+            except Exception as e:  # noqa
+                note(e, "Resampler.run (arguments)")
+            cur["in_resampler"] = True
+            try:
+                r = orig(*a, **k)
+            finally:
+                cur["in_resampler"] = False
+            try:
+                if float(s.state.get_current("beta")) != 0.0:
+                    asg = [int(v) for v in s.state.get_current("assignments")]
+                    cur["train"]["predict"] = asg
+                    t.idx.append(cur.pop("idx"))
+            except Exception as e:  # noqa
+                note(e, "Resampler.run")
+            return r
+        return spy_rs
 
-    def spy_tr(weights):
-        t.train_w.append(np.array(weights, dtype=float).copy())
-        t.logz_rw.append(float(st.get_current("logz")))
-        ms = orig_tr(weights)
-        if float(st.get_current("beta")) != 0.0:
-            cur["train"] = {"K": int(ms.K)}
-        return ms
+    def mk_mi(orig):
+        def spy_mi(self_, *a, **k):
+            r = orig(self_, *a, **k)
+            try:
+                index, labels = r
+                cur["train"]["midx"] = [int(v) for v in np.atleast_1d(index)]
+                cur["train"]["labels"] = [int(v) for v in np.atleast_1d(labels)]
+                t.trains.append(cur["train"])
+                t.assign.append(cur["train"]["labels"])
+            except Exception as e:  # noqa
+                note(e, "ModeStatistics.mode_index")
+            return r
+        return spy_mi
 
-    orig_rs = core.resampler.run
+    def mk_it(orig):
+        def spy_it(*a, **k):
+            cur["iter_metric"], cur["alphas"] = [], []
+            n_un = len(t.unifs)
+            cur["n_it"] += 1
+            if cur["n_it"] > max_iter:
+                raise _Cap("C10 recorder: iteration cap reached")
+            r = orig(*a, **k)
+            try:
+                t.metric_calls.append(cur["iter_metric"])
+                pairs = list(zip(t.unifs[n_un:], cur["alphas"]))
+                t.masks.append([[bool(x) for x in (np.array(u) < al)] for u, al in pairs])
+                t.margins.append([float(np.min(np.abs(np.array(u) - al))) for u, al in pairs])
+                t.alphas.append(cur["alphas"])
+            except Exception as e:  # noqa
+                note(e, "execute_iteration")
+            return r
+        return spy_it
 
-    def spy_rs(weights):
-        t.res_w.append(np.array(weights, dtype=float).copy())
-        cur["in_resampler"] = True
-        try:
-            r = orig_rs(weights)
-        finally:
-            cur["in_resampler"] = False
-        if float(st.get_current("beta")) != 0.0:
-            cur["train"]["predict"] = [int(v) for v in st.get_current("assignments")]
-            t.idx.append(cur.pop("idx"))
-        return r
+    def mk_nt(orig):
+        def spy_nt(*a, **k):
+            r = orig(*a, **k)
+            try:
+                t.guards.append(bool(r))
+            except Exception as e:  # noqa
+                note(e, "_not_termination")
+            return r
+        return spy_nt
 
-    orig_mi = modes.ModeStatistics.mode_index
-
-    def spy_mi(self_, assignments, u):
-        index, labels = orig_mi(self_, assignments, u)
-        cur["train"]["midx"] = [int(v) for v in np.atleast_1d(index)]
-        cur["train"]["labels"] = [int(v) for v in np.atleast_1d(labels)]
-        t.trains.append(cur["train"])
-        return index, labels
-
-    orig_it = core.execute_iteration
-
-    def spy_it(save_every=None, t0=0):
-        cur["iter_metric"], cur["alphas"], cur["masks"] = [], [], []
-        n_un = len(t.unifs)
-        if len(t.iters) >= max_iter:
-            raise RuntimeError("C10 recorder: iteration cap reached")
-        r = orig_it(save_every=save_every, t0=t0)
-        c_ = st.get_current()
-        t.metric_calls.append(cur["iter_metric"])
-        masks = [[bool(a) for a in (np.array(u) < al)] for u, al in zip(t.unifs[n_un:], cur["alphas"])]
-        margins = [float(np.min(np.abs(np.array(u) - al))) for u, al in zip(t.unifs[n_un:], cur["alphas"])]
-        t.masks.append(masks)
-        t.alphas.append(cur["alphas"])
-        t.iters.append({"beta": float(c_["beta"]), "ess": float(c_["ess"]), "logz": float(c_["logz"]), "steps": int(c_["steps"]),
-                        "acceptance": float(c_["acceptance"]), "efficiency": float(c_["efficiency"]), "calls": int(c_["calls"]),
-                        "iter": int(c_["iter"]), "u": np.array(c_["u"]).copy(), "logl": np.array(c_["logl"], dtype=float).copy(),
-                        "assignments": [int(v) for v in c_["assignments"]], "margins": margins,
-                        "blobs": None if c_.get("blobs") is None else np.array(c_["blobs"]).copy()})
-        return r
-
-    orig_nt = core._not_termination
-
-    def spy_nt():
-        r = orig_nt()
-        t.guards.append(bool(r))
-        return r
-
-    patches = [common.patched(np.random, "rand", rand), common.patched(np.random, "random", random),
-               common.patched(np.random, "choice", choice), common.patched(rsm, "systematic_resample", spy_sr),
-               common.patched(mcmc, "check_bounds", spy_cb), common.patched(rwt, "volume_variation", spy_vv),
-               common.patched(trn, "trim_weights", spy_tw),
-               common.patched(mcmc.TPCNRunner, "_compute_acceptance_factor", wrap_factor(mcmc.TPCNRunner._compute_acceptance_factor)),
-               common.patched(mcmc.RWMRunner, "_compute_acceptance_factor", wrap_factor(mcmc.RWMRunner._compute_acceptance_factor)),
-               common.patched(mcmc.BaseMCMCRunner, "_update_progress_bar", wrap_pb(mcmc.BaseMCMCRunner._update_progress_bar)),
-               common.patched(modes.ModeStatistics, "mode_index", spy_mi),
-               common.patched(core.mutator, "log_likelihood", ll), common.patched(core.reweighter, "_compute_metric_and_weights", spy_m),
-               common.patched(core.trainer, "run", spy_tr), common.patched(core.resampler, "run", spy_rs),
-               common.patched(core, "execute_iteration", spy_it), common.patched(core, "_not_termination", spy_nt)]
+    core = getattr(s, "_core", None)
+    if instrument:
+        hook(np.random, "rand", mk_rand)
+        hook(np.random, "random", mk_random)
+        hook(np.random, "choice", mk_choice)
+        hook(rsm, "systematic_resample", mk_sr)
+        hook(mcmc, "check_bounds", mk_cb)
+        hook(rwt, "volume_variation", mk_vv)
+        if hasattr(trn, "trim_weights"):
+            hook(trn, "trim_weights", mk_tw)
+        else:                                   # imported differently: patch it where it is defined (calls are filtered by caller)
+            import tempest.tools as _tl
+            hook(_tl, "trim_weights", mk_tw)
+        for cls in ("TPCNRunner", "RWMRunner"):
+            if hasattr(mcmc, cls):
+                hook(getattr(mcmc, cls), "_compute_acceptance_factor", mk_factor)
+            else:
+                note(AttributeError(cls), "patching mcmc")
+        if hasattr(mcmc, "BaseMCMCRunner"):
+            hook(mcmc.BaseMCMCRunner, "_update_progress_bar", mk_pb)
+        if hasattr(modes, "ModeStatistics"):
+            hook(modes.ModeStatistics, "mode_index", mk_mi)
+        for path, name, mk in (("mutator", "log_likelihood", mk_ll), ("reweighter", "_compute_metric_and_weights", mk_m),
+                               ("trainer", "run", mk_tr), ("resampler", "run", mk_rs)):
+            comp = getattr(core, path, None)
+            if comp is None:
+                note(AttributeError(path), "patching core")
+            else:
+                hook(comp, name, mk)
+        hook(core, "_not_termination", mk_nt)
+    # the iteration cap is needed whatever else is recorded (a run that never terminates must not hang the check)
+    hook(core, "execute_iteration", mk_it)
     with contextlib.ExitStack() as stack, _quiet(), warnings.catch_warnings():
         warnings.simplefilter("ignore")
         for p in patches:
@@ -290,7 +429,7 @@ def record_run(cfg, c, seed, n=16, n_total=48, posterior=False, max_iter=60):
             import traceback
             files = [f.filename.split("/")[-1] for f in traceback.extract_tb(e.__traceback__)]
             t.error = (type(e).__name__, "modes.py" in files or "student.py" in files or "cluster.py" in files)
-    t.n_total = n_total
+    t.iters = observe(s)
     if posterior and t.error is None:
         t.posteriors = posterior_outputs(s, bool(cfg.get("blobs")))
     return t
@@ -422,7 +561,7 @@ def compare_model(t, answer):
                     return None, True
                 return f"iteration {k + 1}: resampled indices differ (impl {t.idx[k_ann][:8]}, model {idx[:8]})", False
             if masks != t.masks[k]:
-                if i["margins"] and min(i["margins"]) < 1e-9:
+                if k < len(t.margins) and t.margins[k] and min(t.margins[k]) < 1e-9:
                     return None, True
                 return (f"iteration {k + 1}: accept masks / number of steps differ (impl {len(t.masks[k])} steps "
                         f"{i['steps']}, model {len(masks)} steps)"), False
@@ -456,134 +595,302 @@ def _same_arrays(a, b, tol):
     return a.shape == b.shape and bool(np.allclose(a, b, rtol=tol, atol=tol, equal_nan=True))
 
 
-def pair_problem(a, b, c, tol=1e-8):
-    """first difference between the trace `a` (log-likelihood l) and `b` (l + c) that the property forbids, or None"""
+def _shifted(xb, xa, shift, tol, c):
+    return xb == xa + shift or abs(xb - (xa + shift)) <= tol * (1 + abs(c) + abs(xa + shift))
+
+
+def ill_conditioned(u, w):
+    """is `volume_variation(u, w)` decided by rounding?  (fewer distinct points than dimensions + 1, a rank-deficient or nearly
+    singular weighted covariance: the routine's `matrix_rank` / regularisation branch and the inverse amplify last-ulp noise)"""
+    try:
+        u = np.asarray(u, dtype=float)
+        n, d = u.shape
+        w = np.ones(n) if w is None else np.asarray(w, dtype=float)
+        w = w / np.sum(w)
+        xc = u - np.sum(u * w[:, None], axis=0)
+        cov = xc.T @ (xc * w[:, None])
+        ev = np.linalg.eigvalsh(cov)
+        return bool(len(np.unique(np.round(u, 12), axis=0)) <= d + 1 or ev[0] <= 1e-9 * max(ev[-1], 1e-300)
+                    or np.linalg.matrix_rank(cov) < d)
+    except Exception:  # noqa
+        return True
+
+
+EXCUSABLE = ("beta", "particles", "blobs")
+
+
+def rounding_excuse(a, b, k, kind="beta"):
+    """a reason, visible in the internal record OF ITERATION k (0-based, the first one whose observables differ), why a DISCRETE
+    decision of that iteration may legitimately have come out differently 'up to floating-point rounding': a near-tie (ESS or
+    metric with its target, a Metropolis uniform with its acceptance probability), or the volume metric evaluated on an
+    ill-conditioned cloud (same arguments up to rounding, different value).  Only differences that are consequences of such a
+    decision (the temperature chosen, the particles kept) can be excused; a wrong evidence or likelihood value at an unchanged
+    temperature never is.  None if there is no such reason (or no record)."""
+    if a.instr_error or b.instr_error or kind not in EXCUSABLE:
+        return None
+    cfgc = a.s._core.config
+    target = cfgc.ess_ratio * a.n
+    vv = cfgc.volume_variation
+    ia = ib = 0
+    for it in ([k] if 0 <= k < min(len(a.metric_calls), len(b.metric_calls)) else []):
+        for (ba, ea, ma), (bb, eb, mb) in (zip(a.metric_calls[it], b.metric_calls[it]) if kind == "beta" else []):
+            if abs(ba - bb) > 1e-12:
+                break
+            for e in (ea, eb):
+                if abs(e - target) <= 1e-9 * target:
+                    return f"iteration {it + 1}: ESS {e!r} ties with the target {target!r} at beta = {ba!r}"
+            if vv is not None:
+                if abs(ma - vv) <= 1e-9 * max(vv, 1e-300) or abs(mb - vv) <= 1e-9 * max(vv, 1e-300):
+                    return f"iteration {it + 1}: the volume metric ties with its target at beta = {ba!r}"
+                if not close(ma, mb, 1e-9):
+                    # find the call's arguments
+                    ja = [j for j, (ln, bt, _) in enumerate(a.vvtab) if abs(bt - ba) <= 1e-12]
+                    cloud = a.vv_in[ja[0]] if ja else None
+                    if cloud is None or ill_conditioned(*cloud) or any(ill_conditioned(*a.vv_in[j]) for j in ja):
+                        return (f"iteration {it + 1}: volume_variation returned {ma!r} / {mb!r} at beta = {ba!r} for arguments equal up to "
+                                f"rounding (ill-conditioned cloud)")
+        if kind != "beta":
+            # the trainer (clustering EM, Student-t fit: iterative, convergence-thresholded) given inputs equal up to rounding
+            ann = sum(1 for i in a.iters[:it] if i["beta"] != 0.0)
+            if ann < min(len(a.trim), len(b.trim), len(a.idx), len(b.idx)) and a.idx[ann] == b.idx[ann]:
+                (wa, ka, ta), (wb, kb, tb) = a.trim[ann], b.trim[ann]
+                if wa is not None and wb is not None and _same_arrays(wa, wb, 1e-9) and len(ka) == len(kb) and not np.any(ka != kb) \
+                        and _same_arrays(ta, tb, 1e-9):
+                    sa = sum(len(m) for m in a.masks[:it])
+                    sb = sum(len(m) for m in b.masks[:it])
+                    if sa < len(a.props) and sb < len(b.props) and sa == sb:
+                        ua = np.frombuffer(b"".join(a.tag_u[x[0]] for x in a.props[sa]))
+                        ub = np.frombuffer(b"".join(b.tag_u[x[0]] for x in b.props[sb]))
+                        if ua.shape == ub.shape and not _same_arrays(ua, ub, 1e-8):
+                            return (f"iteration {it + 1}: the trainer received inputs equal up to rounding (max difference "
+                                    f"{float(np.max(np.abs(wa - wb))):.1e}) and the FIRST proposals already differ by "
+                                    f"{float(np.max(np.abs(ua - ub))):.1e}: rounding amplified by the clustering / Student-t fit")
+        if kind != "beta" and it < len(a.margins) and it < len(b.margins):
+            for m in list(a.margins[it]) + list(b.margins[it]):
+                if m < 1e-9:
+                    return f"iteration {it + 1}: a Metropolis uniform within {m:.1e} of its acceptance probability"
+    return None
+
+
+def property_problem(a, b, c, tol=1e-8):
+    """THE PROPERTY'S OWN ORACLE on a pair of runs (log-likelihood l and l + c, same seed): only the observables the statement
+    names, read through the public API — completion, number of iterations, beta_t, committed particles, ESS sequence,
+    normalised weights (per iteration where recorded, and at beta = 1), stored l + c, logz_t + beta_t c, final logz + c.
+    Returns (message, first iteration concerned, kind of observable) or None."""
     if a.error or b.error:
         if a.error and b.error and a.error == b.error:
             return None
-        return f"one run of the pair aborted and the other did not: unshifted {a.error or 'completed'}, shifted {b.error or 'completed'}"
+        return (f"one run of the pair aborted and the other did not: unshifted {a.error or 'completed'}, shifted {b.error or 'completed'}",
+                min(len(a.iters), len(b.iters)), "completion")
+    for k, (ia, ib) in enumerate(zip(a.iters, b.iters)):
+        if not close(ia["beta"], ib["beta"], tol):
+            return f"temperature schedules differ at iteration {k + 1}: beta {ia['beta']!r} vs {ib['beta']!r}", k, "beta"
+        if ia["u"].shape != ib["u"].shape or not _same_arrays(ia["u"], ib["u"], tol):
+            return f"iteration {k + 1}: particles differ", k, "particles"
+        if (ia["blobs"] is None) != (ib["blobs"] is None) or (ia["blobs"] is not None and not _same_arrays(ia["blobs"], ib["blobs"], tol)):
+            return f"iteration {k + 1}: blobs differ", k, "blobs"
+        if not close(ia["ess"], ib["ess"], 1e-6):
+            return f"iteration {k + 1}: recorded ESS differs ({ia['ess']!r} vs {ib['ess']!r})", k, "ess"
+        if not np.allclose(ib["logl"] - c, ia["logl"], rtol=tol, atol=tol * (1 + abs(c))):
+            return f"iteration {k + 1}: stored log-likelihoods are not shifted by c", k, "logl"
+        if not _shifted(ib["logz"], ia["logz"], ia["beta"] * c, tol, c):
+            return (f"recorded logz at iteration {k + 1} (beta={ia['beta']:.4f}): {ib['logz']!r}, expected logz + beta*c = "
+                    f"{ia['logz'] + ia['beta'] * c!r}"), k, "logz"
     if len(a.iters) != len(b.iters):
-        return f"different number of iterations ({len(a.iters)} vs {len(b.iters)})"
+        return f"different number of iterations ({len(a.iters)} vs {len(b.iters)})", min(len(a.iters), len(b.iters)) - 1, "iterations"
+    if not a.instr_error and not b.instr_error:
+        for k, (wa, wb) in enumerate(zip(a.train_w, b.train_w)):
+            if wa.shape != wb.shape or not np.allclose(wa, wb, rtol=1e-6, atol=1e-12):
+                return f"iteration {k + 1}: the normalised weights returned by the reweighting step differ", k, "weights"
+    if not _shifted(b.final, a.final, c, tol, c):
+        return f"final evidence {b.final!r}, expected {a.final + c!r}", len(a.iters) - 1, "final"
+    if a.posteriors is not None and b.posteriors is not None:
+        key = (False, False, False, True)
+        pa, pb = a.posteriors.get(key), b.posteriors.get(key)
+        if isinstance(pa, str) or isinstance(pb, str):
+            if pa != pb:
+                return "posterior(): raised in one run only", len(a.iters) - 1, "posterior"
+        elif pa is not None and pb is not None:
+            for nme, xa, xb in zip(["x", "weights", "logl", "logw"], pa, pb):
+                if xa.shape != xb.shape:
+                    return f"posterior(): {nme} has shape {xa.shape} vs {xb.shape}", len(a.iters) - 1, "posterior"
+                if nme == "logl":
+                    ok = np.allclose(xb - c, xa, rtol=tol, atol=tol * (1 + abs(c)))
+                elif nme == "weights":
+                    ok = np.allclose(xa, xb, rtol=1e-6, atol=1e-12)
+                elif nme == "logw":      # the log of the normalised weights
+                    ok = np.allclose(xa, xb, rtol=1e-6, atol=1e-6)
+                else:
+                    ok = np.allclose(xa, xb, rtol=tol, atol=tol)
+                if not ok:
+                    return (f"posterior(resample=False, trim=False, return_logw=True): {nme} "
+                            f"{'is not shifted by c' if nme == 'logl' else 'differs'} (normalised weights at beta = 1)"), len(a.iters) - 1, "posterior"
+    return None
+
+
+def internal_problems(a, b, c, tol=1e-8):
+    """CORRESPONDENCE ONLY (never a failing input of the property by itself): call-by-call comparison of what the two runs did
+    inside — the closed-loop theorems predict all of it to coincide in exact arithmetic.  Returns a list of (kind, message, soft);
+    soft = the difference is explained by rounding on an ill-conditioned quantity (counted as a near-tie by the caller)."""
+    out = []
+    if a.error or b.error:
+        return out
+    if a.instr_error or b.instr_error:
+        return [("instrumentation", a.instr_error or b.instr_error, False)]
+
+    def add(kind, msg, soft=False):
+        out.append((kind, msg, soft))
     if a.guards != b.guards:
-        return "_not_termination evaluated differently"
-    # random stream: same calls, same values
-    if a.draws != b.draws or [a.tag_u[k] for d in a.draws for k in d] != [b.tag_u[k] for d in b.draws for k in d]:
-        return "prior draws differ"
+        add("guard", "_not_termination evaluated differently")
+    if a.draws != b.draws or [a.tag_u.get(k) for d in a.draws for k in d] != [b.tag_u.get(k) for d in b.draws for k in d]:
+        add("stream", "prior draws differ")
     if a.choices != b.choices:
-        return "np.random.choice picks of the warm-up replacement differ"
+        add("stream", "np.random.choice picks of the warm-up replacement differ")
     if len(a.resu) != len(b.resu) or any(x != y for x, y in zip(a.resu, b.resu)):
-        return "resampling uniforms differ (the random stream was consumed differently)"
+        add("stream", "resampling uniforms differ (the random stream was consumed differently)")
     if len(a.unifs) != len(b.unifs) or any(x != y for x, y in zip(a.unifs, b.unifs)):
-        return "Metropolis uniforms differ (different number of accept/reject steps or walkers)"
-    # reweighting: the same trial temperatures, the same ESS / metric at each
+        add("stream", "Metropolis uniforms differ (different number of accept/reject steps or walkers)")
     for k, (ma, mb) in enumerate(zip(a.metric_calls, b.metric_calls)):
         if len(ma) != len(mb) or not _same_arrays([x[0] for x in ma], [x[0] for x in mb], 1e-12):
-            return f"iteration {k + 1}: _compute_metric_and_weights was called at different temperatures"
-        if not _same_arrays([x[1] for x in ma], [x[1] for x in mb], 1e-6) or not _same_arrays([x[2] for x in ma], [x[2] for x in mb], 1e-6):
-            return f"iteration {k + 1}: ESS / metric at the trial temperatures differ"
-    # volume_variation: same arguments, same values
+            add("trial-temperatures", f"iteration {k + 1}: _compute_metric_and_weights was called at different temperatures",
+                rounding_excuse(a, b, k, "beta") is not None)
+            break
+        if not _same_arrays([x[1] for x in ma], [x[1] for x in mb], 1e-6):
+            add("trial-ess", f"iteration {k + 1}: ESS at the trial temperatures differs")
+            break
+    # volume_variation: same arguments; the VALUE is compared only where the cloud is well conditioned
     if len(a.vv_in) != len(b.vv_in):
-        return "volume_variation was called a different number of times"
-    for k, ((ua, wa), (ub, wb)) in enumerate(zip(a.vv_in, b.vv_in)):
-        if not _same_arrays(ua, ub, tol) or not _same_arrays(wa, wb, 1e-7):
-            return f"volume_variation call {k + 1} received different arguments"
-    # trainer / trim_weights / resampler inputs
+        add("vv-calls", "volume_variation was called a different number of times",
+            any(rounding_excuse(a, b, k, "beta") is not None for k in range(len(a.metric_calls))))
+    else:
+        for k, ((ua, wa), (ub, wb), va, vb) in enumerate(zip(a.vv_in, b.vv_in, a.vvtab, b.vvtab)):
+            if not _same_arrays(ua, ub, tol) or (wa is None) != (wb is None) or (wa is not None and not _same_arrays(wa, wb, 1e-7)):
+                add("vv-arguments", f"volume_variation call {k + 1} received different arguments")
+                break
+            if not close(va[2], vb[2], 1e-6):
+                if ill_conditioned(ua, wa):
+                    add("vv-value", f"volume_variation call {k + 1}: {va[2]!r} vs {vb[2]!r} on an ill-conditioned cloud", True)
+                else:
+                    add("vv-value", f"volume_variation call {k + 1} returned {va[2]!r} vs {vb[2]!r} for the same arguments")
+                    break
     for name, xa, xb in (("Trainer.run", a.train_w, b.train_w), ("Resampler.run", a.res_w, b.res_w)):
         for k, (wa, wb) in enumerate(zip(xa, xb)):
             if not _same_arrays(wa, wb, 1e-7):
-                return f"iteration {k + 1}: the weights handed to {name} differ"
+                add("hand-off", f"iteration {k + 1}: the weights handed to {name} differ")
+                break
     if len(a.trim) != len(b.trim):
-        return "trim_weights was called a different number of times"
-    for k, ((wa, ia, ta), (wb, ib, tb)) in enumerate(zip(a.trim, b.trim)):
-        if not _same_arrays(wa, wb, 1e-7):
-            return f"annealing iteration {k + 1}: trim_weights received different weights"
-        if len(ia) != len(ib) or np.any(ia != ib):
-            return f"annealing iteration {k + 1}: trim_weights kept different records"
-        if not _same_arrays(ta, tb, 1e-7):
-            return f"annealing iteration {k + 1}: the trimmed weights handed to the clusterer differ"
-    if [(r["K"], r["predict"], r["midx"], r["labels"]) for r in a.trains] != [(r["K"], r["predict"], r["midx"], r["labels"]) for r in b.trains]:
-        return "the trainer's output (number of modes, cluster prediction, mode index) differs"
+        add("trim", "trim_weights was called a different number of times")
+    else:
+        for k, ((wa, ia, ta), (wb, ib, tb)) in enumerate(zip(a.trim, b.trim)):
+            if wa is None or wb is None or not _same_arrays(wa, wb, 1e-7):
+                add("trim", f"annealing iteration {k + 1}: trim_weights received different weights")
+                break
+            if len(ia) != len(ib) or np.any(ia != ib):
+                # the threshold is an interpolated order statistic of the weights: equal weights (duplicated particles) tie exactly
+                add("trim", f"annealing iteration {k + 1}: trim_weights kept different records", abs(len(ia) - len(ib)) <= 2)
+                break
+            if not _same_arrays(ta, tb, 1e-7):
+                add("trim", f"annealing iteration {k + 1}: the trimmed weights handed to the clusterer differ")
+                break
+    if [(r.get("K"), r.get("predict"), r.get("midx"), r.get("labels")) for r in a.trains] != \
+            [(r.get("K"), r.get("predict"), r.get("midx"), r.get("labels")) for r in b.trains]:
+        add("trainer-output", "the trainer's output (number of modes, cluster prediction, mode index) differs")
     if a.idx != b.idx:
-        return "resampled indices differ"
-    # proposals: same points, same Hastings factors, same bounds flags
+        add("indices", "resampled indices differ")
     if len(a.props) != len(b.props):
-        return "different number of accept/reject steps"
-    for k, (pa, pb) in enumerate(zip(a.props, b.props)):
-        if [x[2] for x in pa] != [x[2] for x in pb] or not _same_arrays([x[1] for x in pa], [x[1] for x in pb], tol):
-            return f"accept/reject step {k + 1}: Hastings factors / bounds flags differ"
-        ua = np.frombuffer(b"".join(a.tag_u[x[0]] for x in pa))
-        ub = np.frombuffer(b"".join(b.tag_u[x[0]] for x in pb))
-        if not _same_arrays(ua, ub, tol):
-            return f"accept/reject step {k + 1}: the proposals differ"
+        add("steps", "different number of accept/reject steps")
+    else:
+        for k, (pa, pb) in enumerate(zip(a.props, b.props)):
+            if [x[2] for x in pa] != [x[2] for x in pb] or not _same_arrays([x[1] for x in pa], [x[1] for x in pb], tol):
+                add("proposals", f"accept/reject step {k + 1}: Hastings factors / bounds flags differ")
+                break
+            ua = np.frombuffer(b"".join(a.tag_u[x[0]] for x in pa))
+            ub = np.frombuffer(b"".join(b.tag_u[x[0]] for x in pb))
+            if not _same_arrays(ua, ub, tol):
+                add("proposals", f"accept/reject step {k + 1}: the proposals differ")
+                break
+    done = False
     for k, (xa, xb) in enumerate(zip(a.alphas, b.alphas)):
-        for j, (p, q) in enumerate(zip(xa, xb)):
-            if not _same_arrays(p, q, 1e-7):
-                return f"iteration {k + 1} step {j + 1}: acceptance probabilities differ"
+        for j, (p_, q_) in enumerate(zip(xa, xb)):
+            if not _same_arrays(p_, q_, 1e-7):
+                add("alphas", f"iteration {k + 1} step {j + 1}: acceptance probabilities differ")
+                done = True
+                break
+        if done:
+            break
     if a.masks != b.masks:
-        return "accept masks differ"
-    # the log-likelihoods of all evaluated points: shifted by c, −inf where −inf
+        add("masks", "accept masks differ")
     la, lb = np.array(a.like), np.array(b.like)
     if la.shape != lb.shape or np.any(np.isinf(la) != np.isinf(lb)):
-        return "the set of zero-likelihood points differs"
-    fin = np.isfinite(la)
-    if not np.allclose(lb[fin] - c, la[fin], rtol=tol, atol=tol * (1 + abs(c))):
-        return "evaluated log-likelihoods are not shifted by c"
-    # per iteration state
+        add("likelihood", "the set of zero-likelihood points differs")
+    else:
+        fin = np.isfinite(la)
+        if not np.allclose(lb[fin] - c, la[fin], rtol=tol, atol=tol * (1 + abs(c))):
+            add("likelihood", "evaluated log-likelihoods are not shifted by c")
     for k, (ia, ib) in enumerate(zip(a.iters, b.iters)):
-        for key, t_ in (("beta", tol), ("ess", 1e-6), ("acceptance", 1e-7), ("efficiency", 1e-7)):
-            if not close(ia[key], ib[key], t_):
-                return f"iteration {k + 1}: recorded {key} differs ({ia[key]!r} vs {ib[key]!r})"
-        for key in ("steps", "calls", "iter", "assignments"):
-            if ia[key] != ib[key]:
-                return f"iteration {k + 1}: recorded {key} differs ({ia[key]!r} vs {ib[key]!r})"
-        if not _same_arrays(ia["u"], ib["u"], tol):
-            return f"iteration {k + 1}: particles differ"
-        if (ia["blobs"] is None) != (ib["blobs"] is None) or (ia["blobs"] is not None and not _same_arrays(ia["blobs"], ib["blobs"], tol)):
-            return f"iteration {k + 1}: blobs differ"
-        if not np.allclose(ib["logl"] - c, ia["logl"], rtol=tol, atol=tol * (1 + abs(c))):
-            return f"iteration {k + 1}: stored log-likelihoods are not shifted by c"
-        want = ia["logz"] + ia["beta"] * c
-        if not (ib["logz"] == want or abs(ib["logz"] - want) <= tol * (1 + abs(c) + abs(want))):
-            return f"recorded logz at iteration {k + 1} (beta={ia['beta']:.4f}): {ib['logz']!r}, expected logz + beta*c = {want!r}"
+        bad = [key for key, t_ in (("acceptance", 1e-7), ("efficiency", 1e-7)) if not close(ia[key], ib[key], t_)]
+        bad += [key for key in ("steps", "calls", "iter") if ia[key] != ib[key]]
+        if bad:
+            add("counters", f"iteration {k + 1}: recorded {', '.join(bad)} differ")
+            break
+    if a.assign != b.assign:
+        add("assignments", "cluster assignments of the walkers differ")
     for k, (za, zb, ia) in enumerate(zip(a.logz_rw, b.logz_rw, a.iters)):
-        want = za + ia["beta"] * c
-        if not (zb == want or abs(zb - want) <= tol * (1 + abs(c) + abs(want))):
-            return f"iteration {k + 1}: evidence written by the reweighting step {zb!r}, expected {want!r}"
-    if abs(b.final - (a.final + c)) > tol * (1 + abs(c)):
-        return f"final evidence {b.final!r}, expected {a.final + c!r}"
+        if not _shifted(zb, za, ia["beta"] * c, tol, c):
+            add("logz-rw", f"iteration {k + 1}: evidence written by the reweighting step {zb!r}, expected {za + ia['beta'] * c!r}")
+            break
     if a.posteriors is not None and b.posteriors is not None:
         for key in a.posteriors:
             pa, pb = a.posteriors[key], b.posteriors[key]
             nm = f"posterior(resample={key[0]}, trim={key[1]}, return_blobs={key[2]}, return_logw={key[3]})"
             if isinstance(pa, str) or isinstance(pb, str):
                 if pa != pb:
-                    return f"{nm}: {pa if isinstance(pa, str) else 'returned'} vs {pb if isinstance(pb, str) else 'returned'}"
+                    add("posterior", f"{nm}: {pa if isinstance(pa, str) else 'returned'} vs {pb if isinstance(pb, str) else 'returned'}")
                 continue
             if len(pa) != len(pb):
-                return f"{nm}: different number of returned arrays"
+                add("posterior", f"{nm}: different number of returned arrays")
+                continue
             names = ["x", "weights", "logl"] + (["blobs"] if key[2] and a.cfg.get("blobs") else []) + (["logw"] if key[3] else [])
             for nme, xa, xb in zip(names, pa, pb):
                 if xa.shape != xb.shape:
-                    return f"{nm}: {nme} has shape {xa.shape} vs {xb.shape}"
+                    # trimming threshold between equal weights: a rounding matter when the sizes differ by a record or two
+                    add("posterior", f"{nm}: {nme} has shape {xa.shape} vs {xb.shape}", key[1] and abs(len(xa) - len(xb)) <= 2)
+                    break
                 if nme == "logl":
-                    if not np.allclose(xb - c, xa, rtol=tol, atol=tol * (1 + abs(c))):
-                        return f"{nm}: logl is not shifted by c"
+                    ok = np.allclose(xb - c, xa, rtol=tol, atol=tol * (1 + abs(c)))
                 elif nme == "weights":
-                    if not np.allclose(xa, xb, rtol=1e-6, atol=1e-12):
-                        return f"{nm}: normalised weights differ"
-                elif not np.allclose(xa, xb, rtol=1e-6, atol=1e-7):
-                    return f"{nm}: {nme} differs"
-    return None
+                    ok = np.allclose(xa, xb, rtol=1e-6, atol=1e-12)
+                else:
+                    ok = np.allclose(xa, xb, rtol=1e-6, atol=1e-7)
+                if not ok:
+                    add("posterior", f"{nm}: {nme} {'is not shifted by c' if nme == 'logl' else 'differs'}")
+                    break
+    return out
+
+
+def pair_problem(a, b, c, tol=1e-8):
+    """first problem of either kind as a string (kept for callers that want one line): property first, then hard internal ones"""
+    p = property_problem(a, b, c, tol)
+    if p:
+        return p[0]
+    hard = [m for _, m, soft in internal_problems(a, b, c, tol) if not soft]
+    return hard[0] if hard else None
 
 
 # ------------------------------------------------------------------------------------------------ checkpoints
 
+OBS_KEYS = ("u", "x", "logl", "logz", "beta", "ess", "blobs")
+
+
 def checkpoint_problem(cfg, c, seed, n=16, n_total=80, save_every=2, tol=1e-8):
-    """paired uninstrumented runs with `save_every`: every checkpoint file of the shifted run must hold the same keys and values
-    except logl (+c) and logz (+beta*c); the final-state file likewise with logz + c."""
+    """paired uninstrumented runs with `save_every`: every checkpoint file of the shifted run must hold the same values except
+    logl (+c) and logz (+beta*c); the final-state file likewise with logz + c.
+    Returns (message or None, number of files, is_property): is_property = the difference is in one of the statement's
+    observables (particles, beta, ESS, logl, logz) or in completion; other keys are correspondence-only."""
     import tempfile
     import dill
     import os
+    import shutil
     from tempest import Sampler
     out = []
     for cc in (0.0, c):
@@ -598,6 +905,7 @@ def checkpoint_problem(cfg, c, seed, n=16, n_total=80, save_every=2, tol=1e-8):
                 s.run(n_total=n_total, progress=False, save_every=save_every)
             except Exception as e:  # noqa
                 out.append(("error", type(e).__name__))
+                shutil.rmtree(d, ignore_errors=True)
                 continue
         files = {}
         for fn in sorted(os.listdir(d)):
@@ -606,52 +914,62 @@ def checkpoint_problem(cfg, c, seed, n=16, n_total=80, save_every=2, tol=1e-8):
             dd.pop("sampler", None)
             files[fn] = dd
         out.append(("ok", files))
-        import shutil
         shutil.rmtree(d, ignore_errors=True)
     (sa, fa), (sb, fb) = out
     if sa != sb:
-        return f"one run of the pair aborted and the other did not ({fa if sa == 'error' else 'completed'} vs {fb if sb == 'error' else 'completed'})", 0
+        return f"one run of the pair aborted and the other did not ({fa if sa == 'error' else 'completed'} vs {fb if sb == 'error' else 'completed'})", 0, True
     if sa == "error":
-        return None, 0
+        return None, 0, True
     if sorted(fa) != sorted(fb):
-        return f"different checkpoint files were written: {sorted(fa)} vs {sorted(fb)}", 0
+        return f"different checkpoint files were written: {sorted(fa)} vs {sorted(fb)}", 0, True
+    soft = None
     for fn in fa:
         da, db = fa[fn], fb[fn]
         if sorted(da) != sorted(db):
-            return f"{fn}: different keys {sorted(da)} vs {sorted(db)}", len(fa)
+            soft = soft or f"{fn}: different keys {sorted(da)} vs {sorted(db)}"
+            continue
         final = fn.endswith("_final.state")
-        ca, cb = da["_current"], db["_current"]
-        ha, hb = da["_history"], db["_history"]
+        ca, cb = da.get("_current", {}), db.get("_current", {})
+        ha, hb = da.get("_history", {}), db.get("_history", {})
         for k in ca:
-            va, vb = ca[k], cb[k]
+            va, vb = ca[k], cb.get(k)
             if va is None or vb is None:
-                if va is not vb:
-                    return f"{fn}: current[{k}] is None in one run only", len(fa)
+                ok = va is vb
             elif k == "logl":
-                if not np.allclose(np.asarray(vb, dtype=float) - c, np.asarray(va, dtype=float), rtol=tol, atol=tol * (1 + abs(c))):
-                    return f"{fn}: current logl is not shifted by c", len(fa)
+                ok = np.allclose(np.asarray(vb, dtype=float) - c, np.asarray(va, dtype=float), rtol=tol, atol=tol * (1 + abs(c)))
             elif k == "logz":
-                want = float(va) + (1.0 if final else float(ca["beta"])) * c
-                if abs(float(vb) - want) > tol * (1 + abs(c) + abs(want)):
-                    return f"{fn}: current logz {float(vb)!r}, expected {want!r}", len(fa)
-            elif not np.allclose(np.asarray(va, dtype=float), np.asarray(vb, dtype=float), rtol=1e-6, atol=1e-8):
-                return f"{fn}: current[{k}] differs", len(fa)
+                ok = _shifted(float(vb), float(va), (1.0 if final else float(ca["beta"])) * c, tol, c)
+            else:
+                try:
+                    ok = np.allclose(np.asarray(va, dtype=float), np.asarray(vb, dtype=float), rtol=1e-6, atol=1e-8)
+                except Exception:  # noqa
+                    ok = True
+            if not ok:
+                msg = f"{fn}: current[{k}] is not what the shift predicts"
+                if k in OBS_KEYS:
+                    return msg, len(fa), True
+                soft = soft or msg
         for k in ha:
-            if len(ha[k]) != len(hb[k]):
-                return f"{fn}: history[{k}] has {len(ha[k])} vs {len(hb[k])} entries", len(fa)
+            if len(ha[k]) != len(hb.get(k, [])):
+                return f"{fn}: history[{k}] has {len(ha[k])} vs {len(hb.get(k, []))} entries", len(fa), True
             for j, (va, vb) in enumerate(zip(ha[k], hb[k])):
                 if k == "logl":
                     ok = np.allclose(np.asarray(vb, dtype=float) - c, np.asarray(va, dtype=float), rtol=tol, atol=tol * (1 + abs(c)))
                 elif k == "logz":
-                    want = float(va) + float(ha["beta"][j]) * c
-                    ok = abs(float(vb) - want) <= tol * (1 + abs(c) + abs(want))
+                    ok = _shifted(float(vb), float(va), float(ha["beta"][j]) * c, tol, c)
                 else:
-                    ok = np.allclose(np.asarray(va, dtype=float), np.asarray(vb, dtype=float), rtol=1e-6, atol=1e-8)
+                    try:
+                        ok = np.allclose(np.asarray(va, dtype=float), np.asarray(vb, dtype=float), rtol=1e-6, atol=1e-8)
+                    except Exception:  # noqa
+                        ok = True
                 if not ok:
-                    return f"{fn}: history[{k}][{j}] is not what the shift predicts", len(fa)
+                    msg = f"{fn}: history[{k}][{j}] is not what the shift predicts"
+                    if k in OBS_KEYS:
+                        return msg, len(fa), True
+                    soft = soft or msg
         for k in da:
             if k in ("_current", "_history"):
                 continue
             if isinstance(da[k], (int, float, str, type(None))) and da[k] != db[k]:
-                return f"{fn}: {k} differs ({da[k]!r} vs {db[k]!r})", len(fa)
-    return None, len(fa)
+                soft = soft or f"{fn}: {k} differs ({da[k]!r} vs {db[k]!r})"
+    return soft, len(fa), False
